@@ -312,18 +312,47 @@ def run(ctx):
         f = canon[0]
         ctx.analysed(f)
         sub_blocks = [c.bb for c in f.calls() if c.name() == "sub" and any("a:prime" in op_prov(f, a, 8) or "~prime" for a in c.args)]
+        # the only value other than the remainder r (< prime) is prime - r, and that is built only for a negative word
+        # with r != 0 (prime - 0 is the prime itself, not a field element)
+        neg_true, neg_false, zero_true, zero_false = set(), set(), set(), set()
         for bb, t in f.switches():
             info, flip = bool_condition(f, bb)
-            if info and info[0] == "call" and info[1].name() == "is_negative":
-                t_succ = [s for s in f.succ(bb) if (bool_edge_value(f, bb, s) ^ flip) is True]
-                f_succ = [s for s in f.succ(bb) if (bool_edge_value(f, bb, s) ^ flip) is False]
-                neg_ok = bool(t_succ) and all(any(b in f.reachable_blocks(s, avoid={bb}) | {s} for b in sub_blocks) for s in t_succ)
-                pos_ok = bool(f_succ) and not any(b in f.reachable_blocks(s, avoid={bb}) | {s} for s in f_succ for b in sub_blocks)
-                dr = [c for c in f.calls() if c.name() == "div_rem"]
-                dom_ok = all(f.dominates(c.bb, bb) for c in dr)
-                ok = neg_ok and pos_ok and dom_ok
-                msg = "negative -> prime - r: %s; non-negative -> r: %s; div_rem(prime) first: %s" % (neg_ok, pos_ok, dom_ok)
+            if not (info and info[0] == "call"):
+                continue
+            nm = info[1].name()
+            tr = {s for s in f.succ(bb) if (bool_edge_value(f, bb, s) ^ flip) is True}
+            fa = {s for s in f.succ(bb) if (bool_edge_value(f, bb, s) ^ flip) is False}
+            if nm == "is_negative":
+                neg_true |= tr
+                neg_false |= fa
+            elif nm == "is_zero" and "c:div_rem" in op_prov(f, info[1].args[0], 10):
+                zero_true |= tr
+                zero_false |= fa
+        dr = [c for c in f.calls() if c.name() == "div_rem"]
+        under_neg = bool(sub_blocks) and all(any(f.dominates(s_, b) for s_ in neg_true) for b in sub_blocks)
+        under_nonzero = bool(sub_blocks) and all(any(f.dominates(s_, b) for s_ in zero_false) for b in sub_blocks)
+        pos_ok = bool(neg_false) and not any(b in f.reachable_blocks(s_) | {s_} for s_ in neg_false for b in sub_blocks)
+        dom_ok = bool(dr) and all(any(f.dominates(c.bb, b) for c in dr) for b in sub_blocks)
+        ok = under_neg and under_nonzero and pos_ok and dom_ok
+        msg = ("prime - r is built only for a negative word: %s, only when r != 0: %s; a non-negative word gives r: %s; div_rem(prime) first: %s" % (
+            under_neg, under_nonzero, pos_ok, dom_ok))
     ctx.ob("R19.3", "bytecode:canonical", ok, msg, canon[0].where() if canon else main.where())
+    if len(canon) == 1:
+        # ... and no word leaves the closure without the reduction: every value it returns derives from the remainder
+        f = canon[0]
+        dr = [c for c in f.calls() if c.name() == "div_rem"]
+        rets = f.return_blocks()
+        dominated = bool(dr) and all(any(f.dominates(c.bb, r) for c in dr) for r in rets)
+        vals = []
+        for _, _, st in f.stmts():
+            if st[0] == "a" and st[2][0] == "agg" and st[2][1] == "adt" and "value" in (st[2][5] or []):
+                o = dict(zip(st[2][5], st[2][3]))["value"]
+                vals.append("c:div_rem" in op_prov(f, o, 12))
+        ctx.ob("R19.3", "bytecode:every-word-reduced", dominated and bool(vals) and all(vals),
+               "every return of the canonicalising closure is dominated by div_rem(prime) and every word it builds derives from the remainder (%d)" % len(vals)
+               if dominated and vals and all(vals) else
+               "a bytecode word can leave the canonicalising closure without the reduction modulo the prime (returns dominated by div_rem: %s; words deriving "
+               "from the remainder: %s)" % (dominated, vals), f.where())
     selfagg = None
     for _, _, st in main.stmts():
         if st[0] == "a" and st[2][0] == "agg" and st[2][1] == "adt" and st[2][2].endswith("::CasmContractClass"):
